@@ -240,6 +240,14 @@ def absent_keywords(db_kws, limit, extra):
         add(bytes([w[0] ^ 1]) + w[1:], "bitflip_first")
         add(w[:-1] + bytes([w[-1] ^ 0x80]), "bitflip_last")
         add(w.swapcase(), "swapcase")
+    for w in db_kws[:2]:
+        # a stored keyword next to something that looks like the counters / domain separators schemes put around keywords
+        for sfx in (b"\x01", b"\x02", b"\x00\x01", b"\x00\x00\x00\x01", b"1"):
+            add(w + sfx, "counter_suffix")
+        for pfx in (b"\x01", b"\x02", b"\x03", b"1"):
+            add(pfx + w, "separator_prefix")
+        if len(w) > 1 and w[0] in (1, 2, 3, 0x31, 0x32):
+            add(w[1:], "separator_prefix_removed")
     add(b"\xff" * limit if limit <= 64 else b"\xff" * 40, "maxlen")
     if limit <= 64:
         # the top of the keyword space (maximum length, value 2^(8L) - 1 - s for small s): where code that needs "unused" inputs
